@@ -50,6 +50,11 @@ OneOfRows ==
 \* equal times whose zone objects were allocated separately)
 DeepRows == {Row("deepcontains", "contains", 0, 0, k, s, s = "equal") : k \in {"ptr-int", "struct-ptr-field", "time-offset"}, s \in {"equal", "different"}}
 
+\* ... and membership is not conversion: a parameter of another Go type is never a member, however close its value
+TypedRows == {Row("containstype", "contains", 0, 0, p.t, "", p.ok) : p \in {
+   [t |-> "int:2", ok |-> TRUE], [t |-> "int:7", ok |-> FALSE], [t |-> "float:1.5", ok |-> FALSE], [t |-> "float:2", ok |-> FALSE], [t |-> "int64:2", ok |-> FALSE], [t |-> "uint8:1", ok |-> FALSE],
+   [t |-> "str-in-strs:a", ok |-> TRUE], [t |-> "rune-in-strs:a", ok |-> FALSE], [t |-> "int-in-strs:97", ok |-> FALSE], [t |-> "bytes-in-strs:a", ok |-> FALSE], [t |-> "int-in-floats:1", ok |-> FALSE]}}
+
 \* ---- 4. HasPrefix / HasSuffix / Contains are the strings functions (alphabet {a, b}) ------------------------
 AB == {"a", "b"}
 Words(n) == UNION {[1..k -> AB] : k \in 0..n}
@@ -113,12 +118,13 @@ UUIDSweepRows == {Row("uuidsweep", "uuid", pos, 0, "", cl, IF pos \in HyphenPos 
 URLRows == {Row("url", "url", 0, 0, "", v.t, v.ok) : v \in {
    [t |-> "http://a.b", ok |-> TRUE], [t |-> "https://a.b/p?q=1#f", ok |-> TRUE], [t |-> "ftp://h", ok |-> TRUE], [t |-> "a.b", ok |-> FALSE], [t |-> "http://", ok |-> FALSE],
    [t |-> "mailto:x@y.z", ok |-> FALSE], [t |-> "/path", ok |-> FALSE], [t |-> "", ok |-> FALSE], [t |-> "//a.b", ok |-> FALSE], [t |-> "http://a.b:80", ok |-> TRUE],
+   [t |-> "https://a.b#top", ok |-> TRUE], [t |-> "http://a.b:80#x", ok |-> TRUE], [t |-> "http://[::1]:80#x", ok |-> TRUE], [t |-> "https://a.b#", ok |-> TRUE], [t |-> "https://a.b?q#f", ok |-> TRUE],
    [t |-> " http://a.b", ok |-> FALSE], [t |-> "http://[::1]", ok |-> TRUE], [t |-> "http://a b", ok |-> FALSE]}}
 \* Match(regex): the same alphabets through user regexes
 MatchRows == {Row("match", "^a+$", 0, 0, "^a+$", Join(w), w # <<>> /\ \A i \in DOMAIN w : w[i] = "a") : w \in Words(3)}
              \cup {Row("match", "ab", 0, 0, "ab", Join(w), IsSub(<<"a", "b">>, w)) : w \in Words(3)}
 
-Rows == UUIDSweepRows \cup TimeFarRows \cup SliceBesideRows \cup LenRows \cup CmpRows \cup NanRows \cup DeepRows \cup OneOfRows \cup AffixRows \cup ClassRows \cup TimeRows \cup BoolRows \cup EmailRows \cup UUIDRows \cup URLRows \cup MatchRows
+Rows == TypedRows \cup UUIDSweepRows \cup TimeFarRows \cup SliceBesideRows \cup LenRows \cup CmpRows \cup NanRows \cup DeepRows \cup OneOfRows \cup AffixRows \cup ClassRows \cup TimeRows \cup BoolRows \cup EmailRows \cup UUIDRows \cup URLRows \cup MatchRows
 
 \* every triple has exactly one expected verdict
 TableOK == \A a, b \in Rows : ([a EXCEPT !.expect = TRUE] = [b EXCEPT !.expect = TRUE]) => a.expect = b.expect
